@@ -129,7 +129,12 @@ def copy_(op, dest, src):
         return qfallback(op, dest, src)
     assert dest.qtype == src.qtype
     dest._data = op(dest._data, src._data)
-    dest._scale = op(dest._scale, src._scale)
+    if dest._scale.shape == src._scale.shape:
+        dest._scale = op(dest._scale, src._scale)
+    else:
+        # The source is quantized along another axis: the destination adopts its scale and its axis
+        dest._scale = src._scale.to(dest._scale.dtype).clone()
+        dest._axis = src._axis
     return dest
 
 
